@@ -343,6 +343,88 @@ func identMain(args []string) int {
 		dist["serve/rounds"]++
 	}
 
+	// ---- Serve that is shutting down while its state machine is still busy: the directory stays locked until
+	// Serve has returned (every goroutine of the instance has finished with the files)
+	for round := 0; round < 2; round++ {
+		dir := filepath.Join(base, fmt.Sprintf("w%d", round))
+		opt := simOptions(1024)
+		opt.HeartbeatTimeout = 40 * time.Millisecond
+		if err := bootstrapDir(dir, 5, 1, opt, map[uint64]Node{1: {ID: 1, Addr: "M1:8888", Voter: true}}); err != nil {
+			findings = append(findings, "C20|serve-setup|"+err.Error())
+			continue
+		}
+		fsm := &identBlockFSM{gate: make(chan struct{})}
+		a, err := New(opt, fsm, dir)
+		if err != nil {
+			findings = append(findings, "C20|serve-setup|"+err.Error())
+			continue
+		}
+		la := newBlockedListener()
+		aDone := make(chan error, 1)
+		go func() { aDone <- a.Serve(la) }()
+		// submit updates until one is accepted (the node has elected itself) and the state machine is inside Update
+		var t FSMTask
+		submitted := false
+		for deadline := time.Now().Add(8 * time.Second); time.Now().Before(deadline) && atomic.LoadInt32(&fsm.inside) == 0; {
+			t = UpdateFSM([]byte("x"))
+			select {
+			case a.FSMTasks() <- t:
+				submitted = true
+				select {
+				case <-t.Done(): // refused: not leader yet
+				case <-time.After(100 * time.Millisecond):
+				}
+			case <-time.After(10 * time.Millisecond):
+			}
+			time.Sleep(5 * time.Millisecond)
+		}
+		if atomic.LoadInt32(&fsm.inside) == 0 {
+			if os.Getenv("VERIF_DEBUG") != "" {
+				var st State
+				var term, last, commit uint64
+				_ = a.inspect(func(r *Raft) { st, term, last, commit = r.state, r.term, r.lastLogIndex, r.commitIndex })
+				fmt.Fprintf(os.Stderr, "busy round skipped: submitted=%v state=%v term=%d last=%d commit=%d taskdone=%v\n", submitted, st, term, last, commit, taskDone(t))
+			}
+			close(fsm.gate)
+			_ = a.Shutdown(context.Background())
+			<-aDone
+			_ = la.Close()
+			dist["serve/busy-skipped"]++
+			continue
+		}
+		ctx, cancel := context.WithTimeout(context.Background(), 150*time.Millisecond)
+		_ = a.Shutdown(ctx) // expires: the state machine is still busy
+		cancel()
+		for k := 0; k < 20; k++ {
+			select {
+			case <-aDone:
+				findings = append(findings, "C20|serve-returned-early|Serve returned while its state machine goroutine was still inside Update")
+				k = 1000
+			default:
+			}
+			if k >= 1000 {
+				break
+			}
+			if err := SetIdentity(dir, 5, 1); err != ErrLockExists {
+				findings = append(findings, fmt.Sprintf("C20|lock-lost|SetIdentity during a shutdown in progress returned %v: the directory is unlocked before Serve has returned", err))
+				break
+			}
+			if _, err := os.Stat(filepath.Join(dir, "lock")); err != nil {
+				findings = append(findings, "C20|lock-lost|the lock file is gone while Serve has not returned (shutdown in progress, state machine busy)")
+				break
+			}
+			time.Sleep(10 * time.Millisecond)
+		}
+		close(fsm.gate)
+		select {
+		case <-aDone:
+		case <-time.After(20 * time.Second):
+			findings = append(findings, "C20|serve-hangs|Serve did not return after the state machine was released")
+		}
+		_ = la.Close()
+		dist["serve/busy-rounds"]++
+	}
+
 	var sb strings.Builder
 	sb.WriteString("From Coq Require Import List NArith.\nFrom Verif Require Import Ident.Ident Ident.Cases.\nImport ListNotations.\nOpen Scope N_scope.\n")
 	sb.WriteString("Definition cases : list icase := [\n" + strings.Join(cases, ";\n") + "].\nDefinition M := Eval vm_compute in mismatches cases.\nPrint M.\n")
@@ -357,6 +439,19 @@ func identMain(args []string) int {
 	mb, _ := json.Marshal(meta)
 	_ = ioutil.WriteFile(filepath.Join(out, "ident_meta.json"), mb, 0644)
 	return 0
+}
+
+// identBlockFSM: a state machine whose Update blocks until the gate is closed.
+type identBlockFSM struct {
+	simFSM
+	gate   chan struct{}
+	inside int32
+}
+
+func (f *identBlockFSM) Update(cmd []byte) interface{} {
+	atomic.StoreInt32(&f.inside, 1)
+	<-f.gate
+	return f.simFSM.Update(cmd)
 }
 
 // blockedListener: a net.Listener on which nobody ever connects.
